@@ -4,6 +4,7 @@
 # given checks, and restores the tree. Prints one line per check.
 set -u
 P=$1; TIER=$2; shift 2
+case "$P" in -R:*) ;; /*) ;; *) P="$(pwd)/$P" ;; esac
 cd /repo
 if [ -n "$(git status --porcelain)" ]; then echo "/repo not clean"; exit 2; fi
 case "$P" in
